@@ -3,7 +3,7 @@ import re
 
 from hypothesis import strategies as st
 
-from ..common import VERSIONS, crash_signature, digest, grammar, leaf_starting_at, nodes_preorder, short
+from ..common import maybe_disturb, VERSIONS, crash_signature, digest, grammar, leaf_starting_at, nodes_preorder, short
 from ..engine import Outcome, Prop
 from ..gen import text as T
 from ..gen import valid as V
@@ -294,6 +294,7 @@ class C12(Prop):
             if o38 is None or not o38.ask(op='compile', src=code).get('ok'):
                 return Outcome(excluded='CPython <=3.7 accepts but 3.8 rejects (dead-code elimination makes <=3.7 unreliable)')
         g = grammar(v)
+        maybe_disturb(g, code, v)      # process history: an unfinished earlier call must not matter
         try:
             m = g.parse(code)
             err = first_error_pos(m)
